@@ -61,22 +61,23 @@ theorem attrs_owner_absent (fi : InfoShape) (h : "FileInfoUidGid" ∉ fi.ifaces)
     (hs : fi.sysTy ≠ "*syscall.Stat_t") : attrsOwner G.attrsOwnerSteps fi = none := by
   simp [attrsOwner, G.attrsOwnerSteps, OwnerSrc.get, h, hs]
 
-/-- The `Sys()` types `runLs` trusts before it looks for the interface are exactly the package's own
-attribute types (what a `FileInfo` obtained from this package's client carries). -/
-theorem longname_sys_first : lsSysFirst G.lsOwnerOrder = ["*sshfx.Attributes", "*FileStat"] := by decide
+/-- No owner source of either function carries a guard besides its type test (an extra guard in
+the source flips the regenerated flag). -/
+theorem owner_sources_unconditional :
+    G.attrsOwnerSteps.all OwnerSrc.unconditional = true ∧
+      G.lsOwnerOrder.all OwnerSrc.unconditional = true := by decide
 
-/-- Long name and attributes name the same owner: for every `FileInfo` whose `Sys()` is not one of
-the package's own attribute types, whenever the attributes carry an owner the long name shows the
-same one (same precedence: interface first, then `*syscall.Stat_t`). -/
-theorem longname_owner_agrees (fi : InfoShape) (hs : fi.sysTy ∉ lsSysFirst G.lsOwnerOrder)
-    (o : Nat × Nat) (h : attrsOwner G.attrsOwnerSteps fi = some o) :
-    lsOwner G.lsOwnerOrder fi = o := by
-  rw [longname_sys_first] at hs
-  simp only [List.mem_cons, List.not_mem_nil, or_false, not_or] at hs
-  obtain ⟨h1, h2⟩ := hs
+/-- Long name and attributes name the same owner — the long name's owner lookup follows the
+attributes' precedence: for EVERY `FileInfo` shape (any dynamic type of `Sys()`: nil, `*syscall.Stat_t`,
+`*FileStat`, `*sshfx.Attributes`, anything else; implementing `FileInfoUidGid` or not; all ids), whenever
+the attribute block carries an owner (UIDGID flag set) the long name shows exactly that owner.
+Nothing is excluded: a `*FileStat` / `*sshfx.Attributes` in `Sys()` without the interface makes the
+attributes carry NO owner (hypothesis false), see `longname_owner_when_attrs_have_none`. -/
+theorem longname_owner_agrees (fi : InfoShape) (o : Nat × Nat)
+    (h : attrsOwner G.attrsOwnerSteps fi = some o) : lsOwner G.lsOwnerOrder fi = o := by
   by_cases hi : "FileInfoUidGid" ∈ fi.ifaces
   · rw [attrs_owner_interface_wins fi hi] at h
-    simp [lsOwner, G.lsOwnerOrder, OwnerSrc.get, List.findSome?, h1, h2, hi] at h ⊢
+    simp [lsOwner, G.lsOwnerOrder, OwnerSrc.get, hi] at h ⊢
     exact h
   · by_cases hst : fi.sysTy = "*syscall.Stat_t"
     · rw [attrs_owner_stat_t fi hi hst] at h
@@ -85,14 +86,42 @@ theorem longname_owner_agrees (fi : InfoShape) (hs : fi.sysTy ∉ lsSysFirst G.l
     · rw [attrs_owner_absent fi hi hst] at h
       cases h
 
+/-- The interface wins in the long name too, whatever `Sys()` is (the repaired order). -/
+theorem longname_owner_interface_wins (fi : InfoShape) (h : "FileInfoUidGid" ∈ fi.ifaces) :
+    lsOwner G.lsOwnerOrder fi = fi.ifaceOwner := by
+  simp [lsOwner, G.lsOwnerOrder, OwnerSrc.get, h]
+
+/-- What the long name shows when the attributes carry no owner: the ids of the package's own
+attribute types if `Sys()` is one of them (structured owner absent, textual owner present — no
+contradiction, but the only place where the two differ in information), "0 0" otherwise. -/
+theorem longname_owner_when_attrs_have_none (fi : InfoShape)
+    (h : attrsOwner G.attrsOwnerSteps fi = none) :
+    lsOwner G.lsOwnerOrder fi =
+      if fi.sysTy = "*sshfx.Attributes" ∨ fi.sysTy = "*FileStat" then fi.sysOwner else (0, 0) := by
+  by_cases hi : "FileInfoUidGid" ∈ fi.ifaces
+  · rw [attrs_owner_interface_wins fi hi] at h; cases h
+  · by_cases hst : fi.sysTy = "*syscall.Stat_t"
+    · rw [attrs_owner_stat_t fi hi hst] at h; cases h
+    · by_cases h1 : fi.sysTy = "*sshfx.Attributes"
+      · simp [lsOwner, G.lsOwnerOrder, OwnerSrc.get, List.findSome?, hi, h1]
+      · by_cases h2 : fi.sysTy = "*FileStat"
+        · simp [lsOwner, G.lsOwnerOrder, OwnerSrc.get, List.findSome?, hi, h2]
+        · simp [lsOwner, G.lsOwnerOrder, OwnerSrc.get, List.findSome?, hi, h1, h2, hst]
+
 /-! Non-vacuity: a handler's `FileInfo` wrapping a real `os.FileInfo` (Sys() = *syscall.Stat_t, owner
-1001:1002 on disk) that maps the owner to 4242:4343 through `Uid()`/`Gid()`. -/
+1001:1002 on disk) that maps the owner to 4242:4343 through `Uid()`/`Gid()`; a proxying handler whose
+`Sys()` is the upstream `*FileStat`; a plain real file. -/
 example :
     let fi : InfoShape := ⟨"*syscall.Stat_t", (1001, 1002), ["FileInfoUidGid"], (4242, 4343)⟩
-    fi.sysTy ∉ lsSysFirst G.lsOwnerOrder ∧ attrsOwner G.attrsOwnerSteps fi = some (4242, 4343) ∧
-      lsOwner G.lsOwnerOrder fi = (4242, 4343) := by decide
+    attrsOwner G.attrsOwnerSteps fi = some (4242, 4343) ∧ lsOwner G.lsOwnerOrder fi = (4242, 4343) := by decide
+example :
+    let fi : InfoShape := ⟨"*FileStat", (1001, 1002), ["FileInfoUidGid"], (4242, 4343)⟩
+    attrsOwner G.attrsOwnerSteps fi = some (4242, 4343) ∧ lsOwner G.lsOwnerOrder fi = (4242, 4343) := by decide
 example :
     let fi : InfoShape := ⟨"*syscall.Stat_t", (1001, 1002), [], (0, 0)⟩
     attrsOwner G.attrsOwnerSteps fi = some (1001, 1002) ∧ lsOwner G.lsOwnerOrder fi = (1001, 1002) := by decide
+example :
+    let fi : InfoShape := ⟨"*FileStat", (1001, 1002), [], (0, 0)⟩
+    attrsOwner G.attrsOwnerSteps fi = none ∧ lsOwner G.lsOwnerOrder fi = (1001, 1002) := by decide
 
 end Sftp.C17
